@@ -73,8 +73,13 @@ def lhs_indices(routine):
 
 
 def _is_real(node):
+    """REAL *scalar* expression (the documented domain of the
+    ABS/SIGN/MIN/MAX lowering transformations)."""
+    from psyclone.psyir.symbols import ScalarType
     try:
-        return node.datatype.intrinsic.name == "REAL"
+        dtype = node.datatype
+        return isinstance(dtype, ScalarType) and \
+            dtype.intrinsic.name == "REAL"
     except Exception:         # pylint: disable=broad-except
         return False
 
@@ -139,7 +144,16 @@ def facts(name, otarget, orig_out, got):
         ltxt = wrt(asg.lhs)
         out["lhs_on_rhs_different_section"] = any(wrt(r) != ltxt
                                                   for r in reads)
+    if asg is not None:
+        from psyclone.psyir.nodes import Range
+        steps = {wrt_step(rng) for rng in asg.walk(Range)}
+        out["range_steps"] = sorted(steps)
     return out
+
+
+def wrt_step(rng):
+    from psyclone.psyir.backend.fortran import FortranWriter
+    return FortranWriter()(rng.step)
 
 
 CHECK = dt.TransCheck(PROP, SPEC, PROFILE, facts=facts)
@@ -150,10 +164,22 @@ def _is(case, name):
         case.get("bucket", "").endswith(":diff")
 
 
+REDUCTIONS = ("sum2loop", "product2loop", "minval2loop", "maxval2loop")
+
 CLASSIFIERS = {
+    # a(2:6) = a(1:5): the RHS is not evaluated before the LHS is assigned
     "arrayassign_lhs_read_through_other_section":
         lambda c: _is(c, "arrayassign2loops") and
-        c.get("facts", {}).get("lhs_on_rhs_different_section"),
+        bool(c.get("facts", {}).get("lhs_on_rhs_different_section")),
+    # a(1:6) = a2(6:1:-1): strides of the sections are ignored
+    "arrayassign_nonunit_stride":
+        lambda c: _is(c, "arrayassign2loops") and
+        any(st != "1" for st in c.get("facts", {}).get("range_steps", [])),
+    # c(2,m) = SUM(c(:5,:2)): the accumulator is part of the summed array
+    "reduction2loop_lhs_in_argument":
+        lambda c: c.get("trans") in REDUCTIONS and
+        c.get("bucket", "").endswith(":diff") and
+        bool(c.get("facts", {}).get("lhs_on_rhs")),
 }
 
 
